@@ -58,7 +58,7 @@ CONFIG = {
     'quick': {'shards': 16, 'cases': 40, 'timeout': 600, 'floor': 128},
     'thorough': {'shards': 32, 'cases': 1400, 'timeout': 5400, 'floor': 8960},
 }
-REQUIRED = ['mh_runs_under_scheduled_client', 'mh_runs_after_an_earlier_call_in_another_order', 'lik_std_checked', 'lik_whiten_checked', 'lik_warton_checked', 'lik_whiten_warton_checked', 'lik_go_checked',
+REQUIRED = ['mh_runs_under_scheduled_client', 'lik_glasso_checked', 'lik_glasso_std_checked', 'mh_runs_after_an_earlier_call_in_another_order', 'lik_std_checked', 'lik_whiten_checked', 'lik_warton_checked', 'lik_whiten_warton_checked', 'lik_go_checked',
             'lik_go_indefinite_checked', 'lik_mean_checked', 'lik_variance_checked', 'lik_checked_inside_runs',
             'tf_roundtrip_type0', 'tf_roundtrip_type1', 'tf_roundtrip_type2', 'tf_roundtrip_type3',
             'mh_transitions_checked', 'mh_ratio_values_checked', 'mh_accepted', 'mh_rejected', 'mh_zero_prior_proposals',
@@ -135,6 +135,24 @@ def ref_std(ssx, ssy, W=None, penalty=None, eps=0.0):
     return float(ss.multivariate_normal.logpdf(y, mu, S))
 
 
+def ref_glasso(ssx, ssy, penalty, standardise):
+    """Graphical-lasso shrinkage (sklearn, a library elfi and the reference both trust): the shrunk covariance is the
+    graphical lasso of the sample covariance, or - standardised - of the sample correlation put back on the scale of the
+    summaries. The matrix handed to sklearn is prepared with the same numpy expressions as in elfi so that the iterative
+    solver sees bit-identical input."""
+    from sklearn.covariance import graphical_lasso
+    y = np.asarray(ssy, dtype=float).ravel()
+    mu = ssx.mean(0)
+    S = np.atleast_2d(np.cov(ssx, rowvar=False))
+    if standardise:
+        sd = np.sqrt(np.diag(S))
+        R = np.atleast_2d(np.cov((ssx - mu) / sd, rowvar=False))
+        S = np.outer(sd, sd) * graphical_lasso(R, alpha=penalty, max_iter=200)[0]
+    else:
+        S = graphical_lasso(S, alpha=penalty, max_iter=200)[0]
+    return float(ss.multivariate_normal.logpdf(y, mu, S))
+
+
 def ref_go(ssx, ssy):
     """Price et al. (2018) eq. for the unbiased estimator; (value, psi positive definite?)."""
     n, d = ssx.shape
@@ -200,6 +218,13 @@ def check_lik(ctx, variant, ssx, ssy, got, W=None, penalty=None, gamma=None, whe
     elif variant in ('warton', 'whiten_warton'):
         ref = ref_std(ssx, ssy, W=W, penalty=penalty, eps=1e-5)
         ok = _same(got, ref) or _same(got, ref_std(ssx, ssy, W=W, penalty=penalty, eps=0.0))
+    elif variant in ('glasso', 'glasso_std'):
+        try:
+            ref = ref_glasso(ssx, ssy, penalty, variant == 'glasso_std')
+        except (FloatingPointError, np.linalg.LinAlgError, ValueError):
+            ctx.event('lik_glasso_solver_failed_skipped')
+            return
+        ok = _same(got, ref, rtol=1e-7)
     elif variant == 'go':
         ref, pd = ref_go(ssx, ssy)
         if ref is None:
@@ -356,6 +381,18 @@ def run_lik(ctx, case):
                 check_lik(ctx, 'whiten_warton', ssx, ssy,
                           float(np.squeeze(pm.gaussian_syn_likelihood(ssx.copy(), shaped, whitening=W, shrinkage='warton', penalty=pen))),
                           W=W, penalty=pen)
+                if far <= 3.0:
+                    import warnings
+                    pg = float(rs.uniform(0.02, 0.3))
+                    for std_ in (False, True):
+                        with warnings.catch_warnings():
+                            warnings.simplefilter('ignore')
+                            try:
+                                got = float(np.squeeze(pm.gaussian_syn_likelihood(ssx.copy(), shaped, shrinkage='glasso', penalty=pg, standardise=std_)))
+                            except FloatingPointError:
+                                ctx.event('lik_glasso_solver_failed_skipped')
+                                continue
+                            check_lik(ctx, 'glasso_std' if std_ else 'glasso', ssx, ssy, got, penalty=pg)
                 gam = rs.randn(d) * 0.7
                 check_lik(ctx, 'mean', ssx, ssy, float(np.squeeze(pm.syn_likelihood_misspec(ssx.copy(), shaped, gam, 'mean'))), gamma=gam)
                 gam = np.abs(gam)
